@@ -72,6 +72,13 @@ def reachPages (reach : List (Nat × Hash)) : List Nat := reach.map (·.1)
 def intactB (reachOf : Nat → List (Nat × Hash)) (pages : Nat → Option Hash) (st : Nat) : Bool :=
   (reachOf st).all fun (p, h) => pages p == some h
 
+/-- a pending operation that cannot affect the pages of the state `reach` belongs to: a write to another
+    page, a truncate beyond all of them (a pending header write or sync does not qualify) -/
+def pendClearB (reach : List (Nat × Hash)) : TOp → Bool
+  | .write p _ => !(reachPages reach).contains p
+  | .trunc n => (reachPages reach).all (· < n)
+  | _ => false
+
 /-- the discipline: `none` = the trace violates it -/
 def Cfg.step (reachOf : Nat → List (Nat × Hash)) (c : Cfg) : TOp → Option Cfg
   | .write p h =>
@@ -83,10 +90,14 @@ def Cfg.step (reachOf : Nat → List (Nat × Hash)) (c : Cfg) : TOp → Option C
       some { c with pending := c.pending ++ [.trunc n] } else none
   | .hdr s t st =>
     -- the new header goes to the inactive slot with the next transaction id, and only once
-    -- everything the new state depends on is durable (a sync completed after the last write)
-    if c.inflight.isNone && c.pending.isEmpty && s == 1 - c.aSlot && t == c.aTx + 1 &&
+    -- everything the new state depends on is durable and no operation still pending can change it:
+    -- normally nothing is pending (a sync completed after the last write); the open-time max-size
+    -- update (file.go initTxMaxSize) rewrites the ACTIVE state's header without syncing first,
+    -- while e.g. a rollback's truncate is still pending - harmless, the pending operations stay
+    -- clear of the named state's pages
+    if c.inflight.isNone && c.pending.all (pendClearB (reachOf st)) && s == 1 - c.aSlot && t == c.aTx + 1 &&
        intactB reachOf c.durable.pages st then
-      some { c with pending := [.hdr s t st], inflight := some st } else none
+      some { c with pending := c.pending ++ [.hdr s t st], inflight := some st } else none
   | .sync =>
     let d := c.pending.foldl applyOp c.durable
     match c.inflight with
